@@ -51,6 +51,7 @@ def run(ctx):
     rule_total(ctx, F)
     rule_key(ctx, F)
     rule_cls(ctx, F)
+    rule_cfg(ctx, F)
 
 
 def rule_exp(ctx, F):
@@ -499,3 +500,47 @@ def rule_cls(ctx, F):
                "classify_no_error calls a NOERROR response an answer on a path where the record's type was not found equal to "
                "the queried type (and its class to the queried class): a NODATA reached through a CNAME counts as a positive "
                "answer and escapes max_nodata_validity", b.where(bi))
+
+
+def rule_cfg(ctx, F):
+    """The bounds the cache keeps (max_validity, the failure / NXDOMAIN / NODATA / delegation durations ..) are the
+    ones that were configured: every `Config::set_<name>` of the cache whose type has a field `<name>` stores its
+    argument in that field, and the getter `<name>()` reads that field -- a setter that writes its neighbour's field
+    leaves the configured bound at its default."""
+    R = "C20.cfg"
+    ctx.floor(R, 6)
+    adt = F.adts.get("net::client::cache::Config")
+    if not ctx.anchor(R, "net::client::cache::Config", adt is not None):
+        return
+    fields = set()
+    for v in adt.get("variants", []):
+        for f in v.get("fields", []):
+            fields.add(f["name"] if isinstance(f, dict) else f)
+    n = 0
+    for p, b in sorted(F.bodies.items()):
+        m = re.match(r"^net::client::cache::Config::(set_)?(\w+)$", p)
+        if not m or m.group(2) not in fields:
+            continue
+        name = m.group(2)
+        if m.group(1):
+            written = {}
+            for bi in b.reachable_blocks():
+                for st in b.blocks[bi]["s"]:
+                    if st[0] == "=" and len(st[1]) > 1:
+                        tgt = deep_strip(b.term_of_place(st[1]))
+                        if tgt[0] == "field" and deep_strip(tgt[1]) == ("arg", 1):
+                            src = deep_strip(b.term_of_rvalue(st[2]))
+                            written[str(tgt[2])] = any(x == ("arg", 2) for x in walk(src))
+            n += 1
+            ctx.ob(R, b, "set_%s stores its argument in `%s`" % (name, name), written.get(name) is True,
+                   "Config::set_%s writes %s instead of the field `%s` that %s() and the cache read: the configured value is never "
+                   "applied (and another bound is overwritten)" % (name, sorted(written) or "nothing", name, name), b.where())
+        else:
+            rets = [deep_strip(t) for _, _, _, t in return_assignments(b) if t is not None]
+            reads = {str(x[2]) for t in rets for x in walk(t) if x[0] == "field" and deep_strip(x[1]) in (("arg", 1), ("deref", ("arg", 1)))}
+            if not reads:
+                continue
+            n += 1
+            ctx.ob(R, b, "%s() reads `%s`" % (name, name), name in reads,
+                   "Config::%s returns field(s) %s" % (name, sorted(reads)), b.where())
+    ctx.call_sites += n
